@@ -16,7 +16,7 @@ use std::sync::atomic::{AtomicBool, AtomicU64, Ordering};
 use std::sync::{Arc, Mutex};
 use std::time::Instant;
 
-use proptest::strategy::{BoxedStrategy, Strategy};
+use proptest::strategy::BoxedStrategy;
 use proptest::test_runner::{
     Config, RngAlgorithm, TestCaseError, TestError, TestRng, TestRunner,
 };
@@ -447,7 +447,7 @@ where
             verbose: 0,
             ..Config::default()
         };
-        let mut runner = TestRunner::new_with_rng(config, rng);
+        let mut runner = TestRunner::new_with_rng(config.clone(), rng);
         let strat = (self.strategy)(ctx.tier);
         let st = RefCell::new(ShardState::new());
         let mut done = 0u64;
@@ -474,6 +474,10 @@ where
                 }
             });
             done += batch as u64;
+            // a TestRunner counts successes cumulatively: start a fresh one
+            // for the next batch, seeded from the current RNG stream.
+            let next_rng = runner.new_rng();
+            runner = TestRunner::new_with_rng(config.clone(), next_rng);
             match res {
                 Ok(()) => {}
                 Err(TestError::Fail(_, value)) => {
